@@ -172,14 +172,6 @@ def str_starts_with_str(ex, m, a, fr, dest):
     return str_starts_with(deref(a[0]), deref(a[1]))
 
 
-@model(r'(?:core|std|alloc)::str::<impl str>::ends_with::<&str>')
-def str_ends_with_str(ex, m, a, fr, dest):
-    x, y = deref(a[0]), deref(a[1])
-    if isinstance(x, str) and isinstance(y, str):
-        return x.endswith(y)
-    raise Unsupported('symbolic ends_with(&str)')
-
-
 @model(r'<str as Ord>::cmp|<(?:std::string::)?String as Ord>::cmp')
 def str_ord_cmp(ex, m, a, fr, dest):
     return ordering(str_cmp(deref(a[0]), deref(a[1])))
@@ -2651,3 +2643,79 @@ def vec_from_array(ex, m, a, fr, dest):
     from .interp import seq_items
     items, lo, hi = seq_items(a[0])
     return VecV(list(items[lo:hi]), 'VecDeque' if 'VecDeque' in m.group(0) else 'Vec')
+
+
+def _substr_at(s, p, i):
+    """Formula: the concrete-length pattern p occurs in s at char index i."""
+    k = p.n
+    if i + k > len(s.chars):
+        return False
+    return b_and(b_not(b_lt(s.n, i + k)), *[eq(s.chars[i + j], p.chars[j]) for j in range(k)])
+
+
+@model(r'(?:core|std|alloc)::str::<impl str>::contains::<&str>|(?:core|std|alloc)::str::<impl str>::contains::<&(?:std::string::)?String>')
+def str_contains_str(ex, m, a, fr, dest):
+    s, p = deref(a[0]), deref(a[1])
+    if isinstance(s, str) and isinstance(p, str):
+        return p in s
+    s, p = as_symstr(s), as_symstr(p)
+    if is_sym(p.n):
+        raise Unsupported('contains with symbolic-length pattern')
+    if p.n == 0:
+        return True
+    return b_or(*[_substr_at(s, p, i) for i in range(len(s.chars))])
+
+
+@model(r'(?:core|std|alloc)::str::<impl str>::ends_with::<&str>|(?:core|std|alloc)::str::<impl str>::ends_with::<&(?:std::string::)?String>')
+def str_ends_with_str2(ex, m, a, fr, dest):
+    s, p = deref(a[0]), deref(a[1])
+    if isinstance(s, str) and isinstance(p, str):
+        return s.endswith(p)
+    s, p = as_symstr(s), as_symstr(p)
+    if is_sym(p.n):
+        raise Unsupported('ends_with with symbolic-length pattern')
+    if p.n == 0:
+        return True
+    # the occurrence at i is a suffix when i + |p| == |s|
+    return b_or(*[b_and(_substr_at(s, p, i), eq(s.n, i + p.n)) for i in range(len(s.chars))])
+
+
+@model(r'(?:core|std|alloc)::str::<impl str>::trim_start_matches::<&str>|(?:core|std|alloc)::str::<impl str>::trim_start_matches::<&(?:std::string::)?String>')
+def str_trim_start_matches_str(ex, m, a, fr, dest):
+    s, p = deref(a[0]), deref(a[1])
+    if isinstance(s, str) and isinstance(p, str):
+        while p and s.startswith(p):
+            s = s[len(p):]
+        return s
+    s, p = as_symstr(s), as_symstr(p)
+    if is_sym(p.n):
+        raise Unsupported('trim_start_matches with symbolic-length pattern')
+    if p.n == 0:
+        return str_simplify(s)
+    while len(s.chars) >= p.n and ex.branch(str_starts_with(s, p), 'trim_start_matches'):
+        s = s.slice_chars(p.n)
+    return str_simplify(s)
+
+
+@model(r'(?:std::collections::)?VecDeque::<.*>::make_contiguous')
+def vecdeque_make_contiguous(ex, m, a, fr, dest):
+    v = deref(a[0])
+    return Slice(v.items, 0, len(v.items))
+
+
+@model(r'(?:std::collections::)?VecDeque::<.*>::(as_mut_slices|as_slices)')
+def vecdeque_as_slices(ex, m, a, fr, dest):
+    v = deref(a[0])
+    return Agg('tuple', None, [Slice(v.items, 0, len(v.items)), Slice(v.items, len(v.items), len(v.items))])
+
+
+@model(r'(?:std::vec::)?IntoIter::<.*>::as_slice|(?:std::vec::)?IntoIter::<.*>::as_mut_slice|(?:core::slice::|std::slice::)?Iter::<.*>::as_slice')
+def into_iter_as_slice(ex, m, a, fr, dest):
+    it = deref(a[0])
+    if not isinstance(it, PyIter):
+        raise Unsupported('as_slice of %r' % (it,))
+    rest = [x.fields[0] for x in it.peeked] + list(it.it)
+    it.peeked = []
+    it.it = iter(rest)
+    items = [deref(x) if isinstance(x, Ref) else x for x in rest]
+    return Slice(items, 0, len(items))
